@@ -55,7 +55,9 @@ type peersWorld struct {
 	oobGot         []oobGot
 	mode           IOMode
 
-	longStallAfter int // accept this many peers, then stall for longStall (0 = never)
+	closeRace      bool     // stratum close-race: the application's Close of the old session is held across the replacement
+	heldClose      *parkedG // the application's Close parked at close.afterdie
+	longStallAfter int      // accept this many peers, then stall for longStall (0 = never)
 	nAccepted      int
 	longStalled    bool
 }
@@ -127,6 +129,33 @@ func scenPeers(r *Run) {
 	pw := &peersWorld{r: r, s: s, w: w, byAddr: map[string]*peerClient{}, forgedHosts: map[string]bool{}, oob: oob}
 	pw.stallPM = 0
 	pw.longStallAfter = longStallAfter
+	if r.Spec.Stratum == "close-race" {
+		// The application closes its server-side session of a peer (as a handler
+		// does when it is done or its Read failed) at the very moment that peer's
+		// NEW conversation arrives from the same address: Close is held right after
+		// it marked the session dead (yield point close.afterdie), the listener
+		// processes the first datagram of the new conversation - it finds the dead
+		// session, replaces it - and Close is released afterwards. The replacement
+		// must be untouched: one Accept, and its stream flows.
+		pw.closeRace = true
+		s.mu.Lock()
+		s.Yield.Armed["close.afterdie"] = true
+		s.Yield.Active = map[string]bool{"read.wake": true, "write.wake": true, "close.afterdie": false}
+		s.mu.Unlock()
+		s.OnDrain = func() {
+			for _, p := range s.TakeParked() {
+				p := p
+				if p.site == "close.afterdie" {
+					pw.heldClose = p
+					s.SetActive("close.afterdie", false)
+					s.Stats.Fault("close-held-across-replacement")
+					continue
+				}
+				s.Stats.Probe("serialised-wake-up")
+				s.At(s.Now(), "wake:"+p.who, func() { s.Release(p) })
+			}
+		}
+	}
 	if t.Chance(ps, 400) || r.Spec.Stratum == "backlog" {
 		pw.stallPM = 100 + t.Choose(ps, 500)
 	}
@@ -184,6 +213,18 @@ func scenPeers(r *Run) {
 			return
 		}
 		c := pw.byAddr[from]
+		if pw.closeRace && pw.heldClose != nil && c != nil && c.oldSrv != nil {
+			if f, err := DecodeFrame(w.Ref, w.FecD > 0 && w.FecP > 0, data); err == nil && !f.OOB && len(f.Segs) > 0 && f.Segs[0].Conv == c.conv && f.Segs[0].Sn == 0 {
+				// the listener is about to replace the dead session; let Close go on
+				// once it has
+				p := pw.heldClose
+				pw.heldClose = nil
+				s.After(time.Duration(1+s.Tape.Skewed("peers-closerace", 0, 2000))*time.Microsecond, "release-close", func() {
+					s.L.Logf("the held Close continues")
+					s.Release(p)
+				})
+			}
+		}
 		if c == nil || c.oldSrv == nil || c.oldSrv.CloseInvoked {
 			return
 		}
@@ -615,6 +656,17 @@ func (pw *peersWorld) reconnect(x *peerClient) {
 			// the old server-side session is replaced when the new conversation starts
 			oldSrv.ReaderDone, oldSrv.WriterDone = true, true
 			oldSrv.ReplacedOK = true
+			if pw.closeRace && pw.heldClose == nil && !oldSrv.CloseInvoked {
+				oldSrv.CloseInvoked = true
+				s.SetActive("close.afterdie", true)
+				closer := s.NewActor(fmt.Sprintf("app-closer-%d.%d", x.idx, x.gen))
+				sess := oldSrv.Sess
+				s.L.Logf("the application closes %s while the peer's new conversation is on its way", oldSrv.Name)
+				closer.Do("Close", func() any { return sess.Close() }, func(res any) {
+					oldSrv.Closed = true
+					s.L.Logf("ret  Close(%s) -> %v", oldSrv.Name, res)
+				})
+			}
 			pw.connect(x)
 		})
 	}
